@@ -1269,7 +1269,7 @@ def end_point_float_stage(chk):
                 for x in xs:
                     fv = float(rcu['cu_eval_spline_1d_scalar'](x, k4, 3, co, der))
                     fg = float(rnu['nu_eval_spline_1d_scalar'](x, np.asarray(kn_true, dtype=float), 3, co, der))
-                    lines.append('sp.cu1s %d %s | %s | %s' % (der, qstr(qlift.frac_of_float(x)), ' '.join(qstr(qlift.frac_of_float(v)) for v in k4),
+                    lines.append('sp.cu1s 3 %d %s | %s | %s' % (der, qstr(qlift.frac_of_float(x)), ' '.join(qstr(qlift.frac_of_float(v)) for v in k4),
                                                              ' '.join(qstr(qlift.frac_of_float(v)) for v in co)))
                     tol = 64.0 * (nc + 8) * U * 2 * sabs * (1.0 if der == 0 else 4.0 / dx)
                     meta.append(('cu', (lo, hi, nc, periodic), x, der, fv, tol))
